@@ -51,7 +51,9 @@ IsApp(c) ==
 Settings == {"POLL_TIMER", "SERVICE_SECURE_false", "SERVICE_SECURE_true", "IN_APP_INCLUDE", "IN_APP_EXCLUDE",
              "AUTH_BASIC", "SERVICE_URL", "APP_ROOT",
              \* lists with an empty element (a trailing comma) or set but empty: an empty element names no prefix at all
-             "IN_APP_EXCLUDE_trailing_comma", "IN_APP_INCLUDE_empty", "IN_APP_EXCLUDE_empty"}
+             "IN_APP_EXCLUDE_trailing_comma", "IN_APP_INCLUDE_empty", "IN_APP_EXCLUDE_empty",
+             \* the switch that keeps the agent from installing its trace hooks, said both ways (False / "false" is NOT "yes")
+             "NO_TRACE_false", "NO_TRACE_true"}
 Forms == {"code_typed", "code_text", "env_text"}     \* e.g. POLL_TIMER = 0.02 / "0.02" / DEEP_POLL_TIMER=0.02
 ConsumerCases == [setting : Settings, form : Forms]
 (* the behaviour class is a function of the setting only - never of the form it was given in *)
@@ -67,6 +69,8 @@ Behaviour(c) ==
       [] c.setting = "AUTH_BASIC" -> "basic_authorization_metadata"
       [] c.setting = "SERVICE_URL" -> "channel_to_that_url"
       [] c.setting = "APP_ROOT" -> "root_prefix_is_app"
+      [] c.setting = "NO_TRACE_false" -> "hooks_installed"
+      [] c.setting = "NO_TRACE_true" -> "hooks_untouched"
 
 (* ---- 4. the application root as deep.start() settles it ---- *)
 (* given in code; else DEEP_APP_ROOT; else computed from the file of the code that called deep.start() *)
